@@ -144,11 +144,36 @@ type vNode struct {
 	w    *vWorld
 	id   int
 	eng  xkv.DB
+	flt  *vFaultDB
 	db   *DB
 	st   store.Store
 	up   bool
 	raw  *vSub
 	subs []*vSub
+}
+
+// vFaultDB wraps a node's engine: when armed, the NEXT transaction commit fails (nothing is
+// written, the transaction is discarded by its Close). Everything else passes through. Used for
+// "syncfail" steps: the commit of filterPersist's ingress transaction meets a storage fault.
+type vFaultDB struct {
+	xkv.DB
+	armed atomic.Bool
+	fired atomic.Int64
+}
+
+type vFaultTx struct {
+	xkv.Tx
+	db *vFaultDB
+}
+
+func (d *vFaultDB) OpenTx() xkv.Tx { return &vFaultTx{Tx: d.DB.OpenTx(), db: d} }
+
+func (t *vFaultTx) Commit(ctx context.Context, opts ...any) error {
+	if t.db.armed.CompareAndSwap(true, false) {
+		t.db.fired.Add(1)
+		return fmt.Errorf("verif: injected storage fault on commit")
+	}
+	return t.Tx.Commit(ctx, opts...)
 }
 
 func vAddr(i int) address.Address { return address.Address("vn" + strconv.Itoa(i)) }
@@ -205,7 +230,8 @@ func vNewWorld(thr int) *vWorld {
 func (w *vWorld) open(id int, members []int) error {
 	n := w.nodes[id]
 	if n == nil {
-		n = &vNode{w: w, id: id, eng: memkv.New()}
+		flt := &vFaultDB{DB: memkv.New()}
+		n = &vNode{w: w, id: id, eng: flt, flt: flt}
 		w.nodes[id] = n
 	}
 	st := store.New(w.ctx)
@@ -529,6 +555,7 @@ func (g *vIngress) replay(hi int, h []vStep, finals *sync.Map) *vBad {
 		return sb.String()
 	}
 	delivered := map[string]bool{}
+	seenOnce := map[string]bool{}
 	bad := func(step int, kind, exp, act string) *vBad {
 		b := &vBad{I: hi, R: "mismatch", Step: step, Kind: kind, Exp: exp, Act: act}
 		if g.hard != nil && !g.hard[kind] {
@@ -596,18 +623,37 @@ func (g *vIngress) replay(hi int, h []vStep, finals *sync.Map) *vBad {
 			late = append(late, host.subscribe("p1", "p"), host.subscribe("f1", "f"))
 			g.stats["subs"]++
 			continue
-		case "sync":
+		case "sync", "syncfail":
+			// syncfail: the commit of this request's ingress transaction fails (storage fault)
+			fail := st.A == "syncfail"
 			req := TxRequest{Sender: node.Key(st.From)}
 			for _, o := range st.Ops {
 				req.Operations = append(req.Operations, vRealOp(pre+o.K, o, rv(o.Ver)))
-				delivered[o.String()] = true
+				if !fail {
+					delivered[o.String()] = true
+				}
+			}
+			fired0 := host.flt.fired.Load()
+			if fail {
+				host.flt.armed.Store(true)
 			}
 			if _, err := w.opNet.UnaryClient().Send(w.ctx, vAddr(host.id), req); err != nil {
 				return &vBad{I: hi, R: "inconclusive", Step: si, Note: "send: " + err.Error()}
 			}
 			n := int64(len(st.Ops))
 			counts := func() (int64, int64) { return g.counts(raw0, fb0) }
-			if vFence.Load() {
+			if fail {
+				// nothing may come out for the accepted part, so there is nothing to count: the
+				// fence (FIFO behind the request) is the barrier
+				n = int64(len(st.Rej))
+				if nb := g.fence(hi, si, pre, marks); nb != nil {
+					return nb
+				}
+				if host.flt.armed.Swap(false) || host.flt.fired.Load() != fired0+1 {
+					return &vBad{I: hi, R: "inconclusive", Step: si, Note: "the injected commit fault was not consumed by the request"}
+				}
+				g.stats["syncfails"]++
+			} else if vFence.Load() {
 				if nb := g.fence(hi, si, pre, marks); nb != nil {
 					return nb
 				}
@@ -615,7 +661,8 @@ func (g *vIngress) replay(hi int, h []vStep, finals *sync.Map) *vBad {
 				g.stats["timeouts"]++
 				vFence.Store(true)
 			}
-			if nraw, nfb := counts(); nraw+nfb != n {
+			// (a failed request is judged below: nothing shown that is not stored, feedback = drift)
+			if nraw, nfb := counts(); !fail && nraw+nfb != n {
 				vFence.Store(true) // counting is no barrier on this tree
 				if b := checkEngine(si, st.Eng); b != nil {
 					return b
@@ -625,7 +672,9 @@ func (g *vIngress) replay(hi int, h []vStep, finals *sync.Map) *vBad {
 					return b
 				}
 			}
-			g.stats["syncs"]++
+			if !fail {
+				g.stats["syncs"]++
+			}
 			g.stats["accepted"] += len(st.Acc)
 			g.stats["rejected"] += len(st.Rej)
 			expRaw = want(st.Acc)
@@ -698,8 +747,37 @@ func (g *vIngress) replay(hi int, h []vStep, finals *sync.Map) *vBad {
 		if b := checkEngine(si, st.Eng); b != nil {
 			return b
 		}
-		// raw observer: what the persist stage handed to observers
+		// property level, independent of the specification's expected logs (C13): every
+		// (key, version) at most once per subscriber over the whole history - including a request
+		// whose commit failed and its redelivery - and every operation shown to a subscriber is the
+		// one the node stores for that key afterwards (never a stale one, never one that was not stored)
 		rb := vNoFence(host.raw.batches(raw0))
+		lastShown := map[string]vNote{}
+		for _, b := range rb {
+			for _, n := range b {
+				id := fmt.Sprintf("raw|%s|%d|%d", n.Key, n.Ver, n.Lh)
+				if seenOnce[id] {
+					if b := bad(si, "dup", "each (key, version) at most once per subscriber", fmt.Sprintf("raw: %s v%d/l%d shown again", strings.TrimPrefix(n.Key, pre), n.Ver-base, n.Lh)); b != nil {
+						return b
+					}
+				}
+				seenOnce[id] = true
+				lastShown[n.Key] = n
+			}
+		}
+		for key, n := range lastShown {
+			if d, _, _ := vProject(host.eng, key); d.Ver != n.Ver || d.Lh != n.Lh || d.Var != n.Var {
+				kind := "unstored"
+				if d.Var != "none" && vNewer(d, vDig{Ver: n.Ver, Lh: n.Lh, Var: n.Var}) {
+					kind = "stale"
+				}
+				if b := bad(si, kind, "an operation shown to subscribers is the one stored afterwards",
+					fmt.Sprintf("%s v%d/l%d/%s shown, node stores %+v", strings.TrimPrefix(key, pre), n.Ver-base, n.Lh, n.Var, d)); b != nil {
+					return b
+				}
+			}
+		}
+		// raw observer: what the persist stage handed to observers
 		if act := vNotesOf(rb); act != expRaw {
 			if b := bad(si, "notify-raw", expRaw, act); b != nil {
 				return b
@@ -732,7 +810,22 @@ func (g *vIngress) replay(hi int, h []vStep, finals *sync.Map) *vBad {
 			if !vFence.Load() {
 				vWait(func() bool { return int64(m.s.nBatches()-m.n) >= nexp }, 2*time.Second)
 			}
-			if act := vNotesOf(vNoFence(m.s.batches(m.n))); act != exp {
+			got := vNoFence(m.s.batches(m.n))
+			for _, b := range got {
+				for _, n := range b {
+					if n.Var != "set" {
+						continue // a delete carries no value: identified through the raw observer above
+					}
+					id := m.s.name + "|" + n.Key + "|" + n.Val
+					if seenOnce[id] {
+						if b := bad(si, "dup", "each (key, version) at most once per subscriber", m.s.name+": "+n.Val+" shown again"); b != nil {
+							return b
+						}
+					}
+					seenOnce[id] = true
+				}
+			}
+			if act := vNotesOf(got); act != exp {
 				if b := bad(si, "notify-"+m.s.kind, exp, m.s.name+": "+act); b != nil {
 					return b
 				}
